@@ -241,17 +241,61 @@ def work(exe, start, n):
     return part.dump()
 
 
+def scale_work(exe, k):
+    """many object variables and an equality between EVERY pair: equalities are cached under a key built from the two variable indices, and
+    keys of different pairs must not coincide (1|112 vs 11|12); every equality literal is then checked on a total assignment"""
+    part = common.Partial()
+    rnd = common.rng(PID, "scale", k)
+    n = rnd.randint(114, 124)
+    vals = ["v0", "v1"] if k % 2 == 0 else ["v0", "v1", "v2"]
+    ops = ["ovar o%d %s" % (i, " ".join(vals)) for i in range(n)]
+    pairs = [(i, j) for i in range(n) for j in range(i + 1, n)]
+    for (i, j) in pairs:
+        ops.append("oeq e%d_%d o%d o%d" % ((i, j, i, j) if rnd.random() < 0.5 else (i, j, j, i)))
+    ops.append("propagate")
+    choice = [rnd.choice(vals) for _ in range(n)]
+    for i in range(n):
+        ops.append("assume o%d=%s" % (i, choice[i]))
+    ops.append("obs")
+    tr = net.run_cases(exe, [net.program("scale-%d" % k, ops)], per_case_timeout=120.0)[0]
+    if not isinstance(tr, net.Trace):
+        part.inconc("timeout" if tr is not None and tr.timeout else "abort / no answer in the scale instance")
+        return part.dump()
+    o = tr.obs(len(ops))
+    lits = {}
+    bad = None
+    for idx, (i, j) in enumerate(pairs):
+        r = tr.res(n + 1 + idx)
+        l = net.plit(r)
+        part.count("scale: equalities between distinct variables requested")
+        if l in lits and bad is None:
+            bad = ("same-literal-for-different-equalities", "o%d == o%d and o%d == o%d are different equalities over %d-valued variables but got the same literal %s" % (lits[l][0], lits[l][1], i, j, len(vals), r))
+        lits.setdefault(l, (i, j))
+        if o is not None and bad is None:
+            v, sg = l
+            x = o["val"][v] if v < len(o["val"]) else "2"
+            want = choice[i] == choice[j]
+            if x == "2" or ((x == "1") == sg) != want:
+                bad = ("eq-literal-wrong-on-total-assignment", "with o%d = %s and o%d = %s the literal of o%d == o%d is %s" % (i, choice[i], j, choice[j], i, j, {"2": "unassigned"}.get(x, "true" if (x == "1") == sg else "false")))
+    part.case(common.fingerprint(["scale", n, vals, k]), o is not None, {"variables": n, "values": vals, "pairs": len(pairs)})
+    if bad:
+        part.violation("ov/" + bad[0], bad[1], {"ops": ops[:n] + ["... every pair ..."] + ops[-n - 2:], "detail": bad[1], "driver": "net_drv"})
+    return part.dump()
+
+
 def run(tier):
     res = common.Result(PID, tier, "an instance = 2-4 object variables over a pool of <= 7 values (singleton / identical / nested / disjoint / overlapping domains) "
                         "and 1-10 equality requests (both argument orders, repeats, a==a); mode 'enum': all models enumerated through sat_core::check and "
                         "compared with the set semantics; mode 'hist': assume/pop histories over value and equality literals with value() compared, after "
                         "every step, with the allows() literals and with the brute-forced set of still possible values; non-trivial = an equality between "
-                        "overlapping domains was created or served from the cache")
+                        "overlapping domains was created or served from the cache; plus a few instances with 114-124 variables and an equality between every pair (cache keys, literal identity, total assignment)")
     res.assumptions = ["variables created with the default enforce_exct_one=true (the planner's enforce_exct_one=false path is covered by C17 at solver level)"]
     exe = build.driver("dbg", "net_drv")
     total = 4800 if tier == "quick" else 30000
     per = 50 if tier == "quick" else 250
     common.pmap(work, [(exe, s, per) for s in range(0, total, per)], res)
+    common.pmap(scale_work, [(exe, k) for k in range(4 if tier == "quick" else 32)], res)
+    res.gate("scale instances (more than 113 variables, every pair equated)", res.counters.get("scale: equalities between distinct variables requested", 0) > 10000)
     res.gate("equality cache reached", res.counters.get("feature:eq-cache-hit", 0) > 0)
     res.gate("disjoint domains reached", res.counters.get("feature:eq-disjoint", 0) > 0)
     res.gate("multi-step histories with pops reached", res.counters.get("feature:pop", 0) > 0)
